@@ -15,11 +15,9 @@ def reset():
         rc, out = sh(["git", "-C", "/repo", "worktree", "add", "--detach", WT, "HEAD"])
         if rc: sys.exit(out)
     head = sh(["git", "-C", "/repo", "rev-parse", "HEAD"])[1].strip()
-    sh(["git", "-C", WT, "checkout", "-q", "--detach", head]); sh(["git", "-C", WT, "checkout", "--", "."]); sh(["git", "-C", WT, "clean", "-fdq"])
+    sh(["git", "-C", WT, "reset", "-q", "--hard"]); sh(["git", "-C", WT, "checkout", "-q", "--detach", head]); sh(["git", "-C", WT, "reset", "-q", "--hard", head]); sh(["git", "-C", WT, "clean", "-fdq"])
 def apply(seed):
     rc, out = sh(["git", "-C", WT, "apply", os.path.join(seed, "patch.diff")])
-    if rc:
-        rc, out = sh(["git", "-C", WT, "apply", "--3way", os.path.join(seed, "patch.diff")])
     return rc, out
 def demo_files(seed):
     return [f for f in glob.glob(os.path.join(seed, "*")) if os.path.basename(f) not in ("patch.diff", "meta.json") and not f.endswith(".txt")]
